@@ -52,3 +52,63 @@ class FeedServer:
 
 def line_of(frame_hex: str) -> bytes:
     return b"*" + frame_hex.encode() + b";\n"
+
+
+class FakeGpsd(threading.Thread):
+    """A gpsd daemon for one client on its own loopback address (radar always uses port 2947):
+    VERSION / ?WATCH / DEVICES / WATCH handshake, then the TPV reports given to report()."""
+    _n = 0
+
+    def __init__(self):
+        super().__init__(daemon=True)
+        import os
+        FakeGpsd._n += 1
+        self.srv = socket.socket()
+        self.srv.setsockopt(socket.SOL_SOCKET, socket.SO_REUSEADDR, 1)
+        self.ip = None
+        for k in range(200):
+            ip = f"127.18.{(os.getpid() + k) % 250 + 1}.{(FakeGpsd._n + threading.get_ident() + k) % 250 + 1}"
+            try:
+                self.srv.bind((ip, 2947))
+                self.ip = ip
+                break
+            except OSError:
+                continue
+        if self.ip is None:
+            raise OSError("no free loopback address for the gpsd server")
+        self.srv.listen(1)
+        self.srv.settimeout(12.0)
+        self.conn = None
+        self.ready = threading.Event()
+
+    def run(self):
+        try:
+            self.conn, _ = self.srv.accept()
+            self._send({"class": "VERSION", "release": "3.22", "rev": "3.22", "proto_major": 3, "proto_minor": 14})
+            buf = b""
+            self.conn.settimeout(8.0)
+            while b";" not in buf:  # ?WATCH={"enable":true,"json":true};
+                d = self.conn.recv(256)
+                if not d:
+                    return
+                buf += d
+            self._send({"class": "DEVICES", "devices": [{"path": "/dev/ttyACM0", "activated": "2026-10-03T10:00:00.000Z"}]})
+            self._send({"class": "WATCH", "enable": True, "json": True, "nmea": False})
+            self.ready.set()
+        except OSError:
+            pass
+
+    def _send(self, obj):
+        import json
+        self.conn.sendall(json.dumps(obj).encode() + b"\r\n")
+
+    def report(self, lat, lon):
+        self._send({"class": "TPV", "device": "/dev/ttyACM0", "mode": 3, "time": "2026-10-03T10:00:01.000Z", "lat": lat, "lon": lon, "altMSL": 3.0, "speed": 20.0, "track": 60.0})
+
+    def close(self):
+        for x in (self.conn, self.srv):
+            try:
+                if x is not None:
+                    x.close()
+            except OSError:
+                pass
